@@ -18,6 +18,8 @@ SETTER = {"all-STRICT": ("a", 0), "mov-NASM": ("m", 1), "sib-STRICT": ("s", 0)}
 PROBES = {
     "mov": "A" + hexec.esc("mov rax, 0x7fffffff\n"),
     "three": "A" + hexec.esc("mov rax, rcx\nmov eax, 0x12345678\nadd rcx, 0x12345678\n"),
+    # lengths 3,2,1,2,3: under a chunk size of 4 the second and the fourth instruction must be padded - and only then
+    "chunky": "A" + hexec.esc("mov rax, rcx\nmov eax, ecx\nret\nmov eax, ecx\nmov rax, rcx\n"),
     "sib": "A" + hexec.esc("lea r15, [rax+rsp]\nlea r15, [2*rax]\n"),
     "fail": "A" + hexec.esc("nop\nfoo bar\n"),
     "hex16": "A" + hexec.esc("mov rax, 0x000000007fffffff\nret\n"),
